@@ -77,8 +77,10 @@ func C06(run *vf.Run) {
 		for i := 0; i < n && i < 200000; i++ {
 			run.Eval("")
 		}
-		run.Eval(fmt.Sprintf("stress-%d", seed))
-		run.Eval(fmt.Sprintf("stress-builds-%d", seed))
+		run.Evaluations -= int64(num(sum["distinct_requests_firing_rules_run_concurrently"]))
+		for i := 0; i < int(num(sum["distinct_requests_firing_rules_run_concurrently"])); i++ {
+			run.Eval(fmt.Sprintf("stress-%d-request-%d", seed, i)) // distinct generated requests that fire rules and really ran concurrently
+		}
 		if r == 0 {
 			run.Sample(map[string]any{"stress_round": r, "seed": seed, "summary": sum, "data_race_reports": races})
 		}
